@@ -79,6 +79,36 @@ def check_worker(prog, rep):
                 rep.violation('SYNC-timeout', m, 'Worker.run', 'get-without-timeout',
                               'blocking `tasks.get` without timeout: the worker can never '
                               'observe `exit` and `__exit__` deadlocks in join()', st.lineno)
+    # --- the result of a task is published before the task is signalled as done: join_tasks()
+    # returns as soon as task_done() ran, and callers then read return_dict[return_key]
+    a_ = m.func('Worker.put_task').args
+    rd = [x.arg for x in a_.args + a_.kwonlyargs if 'dict' in x.arg]
+    if not rd:
+        raise AnalysisError('Worker.put_task: no return-dict parameter')
+    stores = [st for st in stmts_of(run) if isinstance(st, ast.Assign) and isinstance(
+        st.targets[0], ast.Subscript) and isinstance(st.targets[0].value, ast.Name) and
+        st.targets[0].value.id == rd[0]]
+    if not stores:
+        raise AnalysisError('Worker.run: the store into %s was not found' % rd[0])
+
+    def is_get(n):
+        return n.stmt is not None and bool(_calls_named(n.stmt, 'self.tasks.get')) and \
+            not isinstance(n.stmt, (ast.While, ast.If, ast.Try, ast.For))
+    done_nodes = [n for n in cfg.nodes if is_done(n) and not isinstance(
+        n.stmt, (ast.While, ast.If, ast.Try, ast.For))]
+    for st in stores:
+        rep.instance('SYNC-publish-before-done', {'function': 'Worker.run',
+                                                  'store': key_text(st)})
+        starts = []
+        for n in done_nodes:
+            starts.extend(n.succ)
+        r = cfg.reachable_from(starts, blocked=is_get)
+        if any(x in r for x in cfg.nodes_of(st)):
+            rep.violation('SYNC-publish-before-done', m, 'Worker.run', 'store-after-task_done',
+                          '`%s` can run after `tasks.task_done()` of the same task: '
+                          '`join_tasks()` may return before the result is stored, and '
+                          'ThreadedStorage.load then finds no value (or a late store overwrites '
+                          'a newer one)' % key_text(st), st.lineno)
     # --- loop re-checks exit flag before each blocking get
     rep.instance('SYNC-exit-check', {'function': 'Worker.run'})
     timed_gets = [st for st, c in gets if kwarg(c, 'timeout') is not None]
@@ -289,6 +319,39 @@ def check_threaded_storage(prog, rep):
                                   'return_key=%s)`: a later load() waits for a result that never '
                                   'arrives (AssertionError/KeyError or stale value)' %
                                   (key, key, key), st.lineno)
+        # (1b) a key leaves _waiting_for_load / _loaded only when its load task has finished:
+        # the worker writes _loaded[key] whenever it gets to the task, so forgetting a pending
+        # key leaves a stale entry behind that later loads / saves trip over
+        cfg_f = None
+        for st in stmts_of(f):
+            rem = [c for c in ast.walk(st) if isinstance(c, ast.Call) and isinstance(
+                c.func, ast.Attribute) and dotted(c.func.value) == 'self._waiting_for_load' and
+                c.func.attr in ('remove', 'discard', 'clear', 'pop', 'difference_update')]
+            if isinstance(st, (ast.If, ast.For, ast.While, ast.With, ast.Try)) or not rem:
+                continue
+            if cfg_f is None:
+                cfg_f = CFG(f)
+            key = unparse(rem[0].args[0]) if rem[0].args else None
+
+            def finished(n, key=key):
+                if n.stmt is None or isinstance(n.stmt, (ast.If, ast.For, ast.While, ast.With,
+                                                         ast.Try)):
+                    return False
+                if _calls_named(n.stmt, 'self.worker.join_tasks') or \
+                        _calls_named(n.stmt, 'self.worker.__exit__'):
+                    return True
+                return isinstance(n.stmt, ast.Assert) and key is not None and \
+                    unparse(n.stmt.test) == '%s in self._loaded' % key
+            ok = cfg_f.dominators_like_before(st, finished)
+            rep.instance('TS-forget-pending', {'function': q, 'removal': key_text(st),
+                                               'after_completion': ok})
+            if not ok:
+                rep.violation('TS-forget-pending', m, q, 'forgets-pending:' + (key or '*'),
+                              '`%s` can run while the load task for the key is still queued '
+                              '(no join_tasks() / worker exit / `assert key in self._loaded` '
+                              'before it): the worker later stores the old value in _loaded, a '
+                              'following save() does not replace it and load() fails its '
+                              'assertion or returns the stale value' % key_text(st), st.lineno)
         # (2) no direct disk operation from the caller thread
         if name in ('load', 'preload', 'save', 'delete'):
             rep.instance('TS-fifo-only', {'function': q})
@@ -942,7 +1005,9 @@ def run(prog, rep, tier):
     check_events(prog, rep)
     rep.floor('SYNC-get-task_done', 2)
     rep.floor('SYNC-timeout', 3)
+    rep.floor('SYNC-publish-before-done', 1)
     rep.floor('TS-wait-load-pair', 2)
+    rep.floor('TS-forget-pending', 3)
     rep.floor('DC-coupled-delete', 2)
     rep.floor('DC-coupled-set', 2)
     rep.floor('EV-disconnect-guard', 1)
